@@ -24,6 +24,8 @@ DECIDED_MORE = ('Also: may-raise sources for a method call on an optional regex 
 DECIDED = DECIDED + ' ' + DECIDED_MORE
 DECIDED_R6 = ('Round 6: item store on an object of a package class is a call of its __setitem__; _raise looks up (class of the error, except_class); header end as a linear identity.')
 DECIDED = DECIDED + ' ' + DECIDED_R6
+DECIDED_R7 = ('Round 7: decode(<computed codec>) raises LookupError; generator escapes occur at the consumption site; the upload window positions the shared source before every read.')
+DECIDED = DECIDED + ' ' + DECIDED_R7
 NOT_DECIDED = ('regex matching time; completeness of the may-raise catalogue (a stated assumption: ' +
                '; '.join(f'{a} -> {b}' for a, b in CATALOGUE_DOC) + '); a non-numeric CONTENT_LENGTH (server-validated '
                'framing metadata, not body bytes).')
